@@ -452,6 +452,49 @@ func C12(c *core.Ctx) {
 		c.Decide(okAll && n > 0, "R12.3", "make-interest-writes-digest", p.Pos(mk.Pos()), "with parameters present every successful path stores sha256 into the digest component", "MakeInterest can succeed with ApplicationParameters without computing the ParametersSha256Digest component")
 	}
 
+	// ---- R12.5 once the parameters digest has been computed, no byte of the encoded wire
+	// is written any more (only the outer header may be shrunk): signer, digest and parser
+	// must see the same bytes
+	if mk := c.Fn("R12.5", "std/ndn/spec_2022", "Spec", "MakeInterest"); mk != nil {
+		var digestCopy ssa.Instruction
+		core.Instrs(mk, func(in ssa.Instruction) {
+			if cl, ok := isBuiltinCall(in, "copy"); ok {
+				if sm, ok := core.Strip(cl.Call.Args[1]).(*ssa.Call); ok && sm.Call.Method != nil && sm.Call.Method.Name() == "Sum" {
+					digestCopy = in
+				}
+			}
+		})
+		if digestCopy == nil {
+			c.Und("R12.5", "digest-copy", p.Pos(mk.Pos()), "cannot find the digest store in MakeInterest")
+		} else {
+			late := ""
+			n := 0
+			core.Instrs(mk, func(in ssa.Instruction) {
+				st, ok := in.(*ssa.Store)
+				if !ok {
+					return
+				}
+				ia, ok := st.Addr.(*ssa.IndexAddr)
+				if !ok {
+					return
+				}
+				// a store into a byte buffer that is an element of the encoded wire
+				elemT, isSl := ia.X.Type().Underlying().(*types.Slice)
+				if !isSl {
+					return
+				}
+				if b, isB := elemT.Elem().Underlying().(*types.Basic); !isB || b.Kind() != types.Uint8 {
+					return
+				}
+				n++
+				if core.ReachableFrom(core.After(digestCopy), in) {
+					late = c.Pos(in)
+				}
+			})
+			c.Decide(late == "" && n > 0, "R12.5", "no-wire-write-after-digest", c.Pos(digestCopy), fmt.Sprintf("%d byte stores into wire buffers all happen before the digest is computed", n), "MakeInterest writes into the encoded wire (at "+late+") after the ParametersSha256Digest was computed over it: the digest (and the decoder's check) covers bytes that differ from the ones sent")
+		}
+	}
+
 	// ---- R12.4 definition-level covered-range agreement
 	models, _ := discoverModels(p)
 	nSig := 0
